@@ -101,6 +101,97 @@ func c20PaceCheck(lc *explore.Local, _ struct{}, c c20Pace) *explore.Fail {
 	return nil
 }
 
+// ---- pacing across power cycles ---------------------------------------------------------------
+
+// c20Toggle: sound is switched off before machine cycle At and on again Off cycles later (Off = 0: both writes
+// land between the same two machine cycles, so sound is on during every cycle).
+type c20Toggle struct {
+	At  int `json:"at"`
+	Off int `json:"off"`
+}
+
+type c20Power struct {
+	Toggles []c20Toggle `json:"toggles"`
+	Cycles  int         `json:"cycles"`
+}
+
+// c20PowerCheck: with sound on, samples come on a 95-clock grid. Across power cycles the statement leaves
+// two readings open — the grid keeps running in emulated time, or it counts powered-on time only — and both
+// are accepted; what is not accepted is any sample sequence that fits neither (a grid that restarts or slips
+// at a power-on swallows part of a period: fewer than one sample per 95 clock cycles of sound-on time).
+func c20PowerCheck(lc *explore.Local, _ struct{}, c c20Power) *explore.Fail {
+	m := machine.New(machine.ROMOnly(), machine.Opts{Audio: true, ChanCap: 64})
+	on := make([]bool, c.Cycles)
+	got := make([]bool, c.Cycles)
+	edge := make([]bool, c.Cycles) // cycles next to a power write: what happens in them is not judged
+	power := true
+	for n := 0; n < c.Cycles; n++ {
+		for _, t := range c.Toggles {
+			if t.At == n {
+				m.Map.Write(0xff26, 0x00)
+				power = false
+				edge[n] = true
+			}
+			if t.At+t.Off == n {
+				m.Map.Write(0xff26, 0x80)
+				power = true
+				edge[n] = true
+			}
+		}
+		m.A.EndMachineCycle()
+		lc.Trans(1)
+		l, r := drain(m)
+		if len(l) != len(r) || len(l) > 1 {
+			return explore.Failf("left and right samples are not emitted together", "toggles %v: cycle %d: %d left, %d right", c.Toggles, n, len(l), len(r))
+		}
+		on[n], got[n] = power, len(l) == 1
+		if !power && got[n] {
+			return explore.Failf("samples emitted although sound is off or no outputs are attached", "toggles %v: cycle %d", c.Toggles, n)
+		}
+	}
+	fits := func(onTime bool) bool {
+	phase:
+		for phi := 0; phi < 95; phi++ {
+			clk := 0 // clock cycles elapsed on the grid's time base before cycle n
+			for n := 0; n < c.Cycles; n++ {
+				if onTime && !on[n] {
+					continue
+				}
+				// a grid point falls in this machine cycle iff some phi+95j lies in [clk, clk+4)
+				r := ((clk-phi)%95 + 95) % 95
+				point := r == 0 || r > 91
+				clk += 4
+				if edge[n] || !on[n] {
+					continue
+				}
+				if point != got[n] {
+					continue phase
+				}
+			}
+			return true
+		}
+		return false
+	}
+	if !fits(false) && !fits(true) {
+		var times []int
+		for n, g := range got {
+			if g && len(times) < 12 {
+				times = append(times, n)
+			}
+		}
+		return explore.Failf("samples are not emitted exactly once per 95 clock cycles", "sound switched off/on at %v (machine cycle, cycles off): the samples (machine cycles %v ...) fit no 95-clock grid, neither in emulated time nor in sound-on time", c.Toggles, times)
+	}
+	lc.Eval(1)
+	k := 0
+	for _, g := range got {
+		if g {
+			k++
+		}
+	}
+	lc.Outcome(uint64(k))
+	return nil
+}
+
 // ---- routing and range --------------------------------------------------------------------
 
 type c20Route struct {
@@ -278,7 +369,7 @@ func c20RangeCheck(lc *explore.Local, _ struct{}, c c20Range) *explore.Fail {
 func init() {
 	register("C20", "model_checking", func(c *Ctx) {
 		if c.R != nil {
-			c.R.Rule = "(pacing) the sample channels are drained after every machine cycle for 2.3 million cycles (2.2 emulated seconds) from power-on and from 8 further phases (sound power-cycled there): per cycle at most one left and one right sample, always together, and one phase phi must exist with sample k in cycle floor((phi+95k)/4) for ALL k; with sound off or no outputs attached no sample at all; (routing) NR51 (all 256) x playing-channel subset (16) x NR50 in {00,07,70,77}: a side with no playing channel routed to it is exactly 0, every sample finite and in [0,1), and for each playing channel not routed to a side the run that differs only in that channel's parameters gives the identical sample sequence on that side; (range) all channel volumes (16^3) x wave level x NR50 with everything routed"
+			c.R.Rule = "(pacing) the sample channels are drained after every machine cycle for 2.3 million cycles (2.2 emulated seconds) from power-on and from 8 further phases (sound power-cycled there): per cycle at most one left and one right sample, always together, and one phase phi must exist with sample k in cycle floor((phi+95k)/4) for ALL k; with sound off or no outputs attached no sample at all; (power cycles) sound switched off and on again at every phase of the sample grid for several lengths (including zero: off and on between the same two cycles): no sample while off, and all samples must lie on one 95-clock grid, in emulated time or in sound-on time; (routing) NR51 (all 256) x playing-channel subset (16) x NR50 in {00,07,70,77}: a side with no playing channel routed to it is exactly 0, every sample finite and in [0,1), and for each playing channel not routed to a side the run that differs only in that channel's parameters gives the identical sample sequence on that side; (range) all channel volumes (16^3) x wave level x NR50 with everything routed"
 			c.R.Assumptions = []string{"samples are taken from the channels handed to audio.New (machine wiring; the speakers wiring of gameboy.New is compared in C26)"}
 		}
 		cycles := 2300000
@@ -292,6 +383,23 @@ func init() {
 				yield(c20Pace{Phase: 5, Cycles: 300000, Off: true})
 				yield(c20Pace{Phase: 0, Cycles: 300000, NoOut: true})
 			}, func() struct{} { return struct{}{} }, c20PaceCheck)
+		explore.Product(c.R, "pacing-across-power-cycles", explore.PartOpt{Bound: "1,200 machine cycles per run, every cycle observed", Domain: "sound switched off before every machine cycle 30..124 (every phase of the 95-clock grid) for {0,1,2,23,24,95,300} cycles; and two such power cycles 7/40 cycles apart"},
+			func(yield func(c20Power) bool) {
+				for at := 30; at < 125; at++ {
+					for _, off := range []int{0, 1, 2, 23, 24, 95, 300} {
+						if !yield(c20Power{Toggles: []c20Toggle{{at, off}}, Cycles: 1200}) {
+							return
+						}
+					}
+					for _, gap := range []int{7, 40} {
+						for _, off := range []int{0, 3} {
+							if !yield(c20Power{Toggles: []c20Toggle{{at, off}, {at + off + gap, off}}, Cycles: 1200}) {
+								return
+							}
+						}
+					}
+				}
+			}, func() struct{} { return struct{}{} }, c20PowerCheck)
 		explore.Product(c.R, "routing", explore.PartOpt{Bound: "1,400 machine cycles (58 samples) per run, paired runs per unrouted channel", Domain: "NR51 0-255 x playing subset 0-15 x NR50 {00,07,70,77}"},
 			func(yield func(c20Route) bool) {
 				for nr51 := 0; nr51 < 256; nr51++ {
